@@ -250,14 +250,19 @@ func (m *Machine) switchAway(cur *G) {
 			}
 			panic(execAbort{})
 		}
+		// delay-bounded scheduling: the default at a blocking point is the lowest-numbered enabled goroutine;
+		// choosing another one costs one unit of the same budget that preemptions draw from
 		next := en[0]
-		if len(en) > 1 {
+		if len(en) > 1 && m.preemptions < m.maxPreempt {
 			opts := make([]int, len(en))
 			for i, g := range en {
 				opts[i] = g.id
 			}
 			id := m.decideLazy("sched", func() []int { return opts })
 			next = m.gs[id]
+			if next != en[0] {
+				m.preemptions++
+			}
 		}
 		if next == cur {
 			cur.blockedOn = nil
